@@ -228,5 +228,90 @@ func TestCheck(t *testing.T) {
 			}
 		}
 	}
+	// A fetch answered without an error code but with a record set that ends inside the header of its first batch
+	// (k bytes of it, as brokers serve at the byte limit), arriving at once or only after the fetch's RTT-adjusted
+	// deadline (1 byte at once, the rest 9.5 s of virtual time later; the Conn's deadline is 10 s, the adjusted one
+	// 9 s: the library then reports RequestTimedOut, a kafka.Error, and keeps the connection). Then every next
+	// operation: it never goes out on a connection that still holds unread bytes of the fetch response; after a
+	// kafka.Error it behaves as on a fresh connection; after any other error it fails.
+	s.Begin("truncated-fetch-then-next-op")
+	maxK := 16
+	if thorough {
+		maxK = 24
+	}
+	for i := range all {
+		o1 := &all[i]
+		if o1.Key != protocol.Fetch || o1.ErrAt != "" {
+			continue
+		}
+		for k := 1; k <= maxK; k++ {
+			for _, late := range []bool{false, true} {
+				for j := range all {
+					o2 := &all[j]
+					k, late := k, late
+					id := fmt.Sprintf("%s record set cut at byte %d of its first batch, late=%v, then %s", o1.Name, k, late, o2.Name)
+					s.Case(id, id, func() (string, *seqx.Viol) {
+						var v *seqx.Viol
+						key := ""
+						wantRes, wantErr := fresh(o1, o2)
+						br := bub.Run(t, 0, func() {
+							c := connops.MkCluster(o1, o2)
+							injected := false
+							c.Script = func(e *fk.Entry) string {
+								if e.Key == protocol.Fetch && !injected {
+									injected = true
+									c.SetFetchShape(fk.FetchShape{TruncateHead: k})
+									if late {
+										return "split:1@9500"
+									}
+									return ""
+								}
+								if injected {
+									c.SetFetchShape(fk.FetchShape{})
+								}
+								return ""
+							}
+							conn, cid := hx.Conn(c, "t", 0)
+							defer conn.Close()
+							_, err1 := o1.Run(conn)
+							e1 := hx.ErrString(err1)
+							key = o1.Name + ":" + e1
+							if !injected {
+								key += ":not-injected"
+								return
+							}
+							c.SetFetchShape(fk.FetchShape{})
+							un1 := c.Unconsumed(cid) + kafka.VerifBuffered(conn)
+							c.Lock()
+							n1 := len(c.Journal)
+							c.Unlock()
+							r2, err2 := o2.Run(conn)
+							e2 := hx.ErrString(err2)
+							c.Lock()
+							sent := false
+							for _, e := range c.Journal[n1:] {
+								sent = sent || e.Conn == cid
+							}
+							c.Unlock()
+							what := fmt.Sprintf("%s, answered with a record set cut after %d bytes (late=%v), returned %s", o1.Name, k, late, e1)
+							switch {
+							case un1 != 0 && sent:
+								v = &seqx.Viol{Sig: fmt.Sprintf("residual-then-reused:%s", o1.Name), Msg: fmt.Sprintf("%s and left %d unread bytes of the fetch response on the connection; %s was then sent on it and returned (%q, %s): its response is read from the leftover bytes", what, un1, o2.Name, r2, e2)}
+							case hx.IsKafkaErr(err1) && (r2 != wantRes || e2 != wantErr):
+								v = &seqx.Viol{Sig: fmt.Sprintf("next-op-differs:%s", o1.Name), Msg: fmt.Sprintf("%s; afterwards %s returned (%q, %s); on a fresh connection it returns (%q, %s)", what, o2.Name, r2, e2, wantRes, wantErr)}
+							case !hx.IsKafkaErr(err1) && err1 != nil && err2 == nil:
+								v = &seqx.Viol{Sig: fmt.Sprintf("reused-after-failure:%s", o1.Name), Msg: fmt.Sprintf("%s (not a Kafka error) but the connection was used again successfully by %s", what, o2.Name)}
+							}
+							key += " -> " + e2
+						})
+						if br.Panic != "" {
+							return "panic", &seqx.Viol{Sig: "panic", Msg: br.Panic}
+						}
+						return key, v
+					})
+				}
+			}
+		}
+	}
 	s.Finish()
 }
